@@ -1,6 +1,6 @@
 # sourced by the scratch-copy tools: analyses of scratch copies use a Go build cache of their own
 # (every copy adds ~20 MB of entries for the packages that differ; in the shared cache that is never
-# trimmed and filled the disk once). The private cache is emptied with `go clean -cache` when it passes 15 GB.
+# trimmed and filled the disk once). The private cache is emptied with `go clean -cache` when it passes 60 GB (never while a regression is running: start one with an empty cache).
 export GOCACHE=/tmp/verif-gocache
 mkdir -p /tmp/verif-gocache
-if [ "$(du -sm /tmp/verif-gocache 2>/dev/null | cut -f1)" -gt 15000 ] 2>/dev/null; then go clean -cache; fi
+if [ "$(du -sm /tmp/verif-gocache 2>/dev/null | cut -f1)" -gt 60000 ] 2>/dev/null; then go clean -cache; fi
